@@ -137,7 +137,9 @@ struct fake_socket : socket_base
 static std::string run_frame(const std::vector<std::string> & f)
 {
     // frame <nrecv> <eof|err> <sched|-> <prebuffer hex> <stream hex>
-    size_t nrecv = std::stoul(f.at(1));
+    // <nrecv>: a number of receive steps, or a history such as RSRRS (R = receive step, S = send a command)
+    std::string ops = f.at(1);
+    if (ops.find_first_not_of("0123456789") == std::string::npos) ops = std::string(std::stoul(ops), 'R');
     net_context ctx;
     control_connection cc(ctx);
     auto fs = std::make_unique<fake_socket>();
@@ -148,8 +150,14 @@ static std::string run_frame(const std::vector<std::string> & f)
     raw->st.data = unhex(f.at(5));
     cc.socket_ = std::move(fs);
     std::string out;
-    for (size_t i = 0; i < nrecv; i++)
+    for (char op : ops)
     {
+        if (op == 'S')
+        {
+            try { cc.send("NOOP"); }
+            catch (const ftp_exception &) { if (!out.empty()) out += " "; out += "exn"; break; }
+            continue;
+        }
         if (!out.empty()) out += " ";
         try
         {
